@@ -1,0 +1,463 @@
+//go:build verif
+
+// Contracts for package gorm (comment-only; compiled only under the verif tag).
+package gorm
+
+//@ package gorm.io/gorm
+
+//@ # ---------- C04: transaction protocol ghost state ----------
+//@ ghost begins commits rollbacks sps rbtos fccalls spname rbname fcerrtag fcerrbox opened
+
+//@ event call (*DB).Begin
+//@   do begins = begins + 1
+//@ event call (*DB).Commit
+//@   do commits = commits + 1
+//@ event call (*DB).Rollback
+//@   do rollbacks = rollbacks + 1
+//@ event call (*DB).SavePoint
+//@   do sps = sps + 1
+//@   do spname = arg1
+//@ event call (*DB).RollbackTo
+//@   do rbtos = rbtos + 1
+//@   do rbname = arg1
+//@ event callparam fc
+//@   in gorm.(*DB).Transaction
+//@   do fccalls = fccalls + 1
+//@   do fcerrtag = tagof(result)
+//@   do fcerrbox = boxof(result)
+
+//@ func (*DB).Transaction
+//@   tags C04
+//@   may-panic fc
+//@   ensures fc-once: fccalls <= old(fccalls) + 1
+//@   ensures outer-commit: begins == old(begins) + 1 && fccalls == old(fccalls) + 1 && result == nil ==> commits == old(commits) + 1 && rollbacks == old(rollbacks)
+//@   ensures outer-rollback: begins == old(begins) + 1 && fccalls == old(fccalls) + 1 && result != nil ==> rollbacks == old(rollbacks) + 1
+//@   ensures fc-error-unchanged: fccalls == old(fccalls) + 1 && fcerrtag != 0 ==> commits == old(commits) && tagof(result) == fcerrtag && boxof(result) == fcerrbox
+//@   ensures nested-rollbackto: begins == old(begins) && sps == old(sps) + 1 && fccalls == old(fccalls) + 1 ==> ite(fcerrtag != 0, rbtos == old(rbtos) + 1 && rbname == spname, rbtos == old(rbtos))
+//@   ensures nested-savepoint-failed: begins == old(begins) && sps == old(sps) + 1 && fccalls == old(fccalls) ==> result != nil && rbtos == old(rbtos)
+//@   ensures nested-disabled: sps == old(sps) ==> rbtos == old(rbtos)
+//@   ensures nested-outer-untouched: begins == old(begins) ==> commits == old(commits) && rollbacks == old(rollbacks)
+//@   ensures begin-failed: begins == old(begins) + 1 && fccalls == old(fccalls) ==> result != nil && commits == old(commits)
+//@   ensures-on-panic outer: begins == old(begins) + 1 ==> rollbacks == old(rollbacks) + 1 && commits == old(commits)
+//@   ensures-on-panic nested: begins == old(begins) && sps == old(sps) + 1 ==> rbtos == old(rbtos) + 1 && rbname == spname
+//@   ensures-on-panic nested-outer-untouched: begins == old(begins) ==> commits == old(commits) && rollbacks == old(rollbacks)
+
+//@ # ---------- copy-on-derive (C06), chain state (C16), context (C18), connection (C05) ----------
+//@ func (*Statement).clone
+//@   tags C06
+//@   modifies nothing
+//@   loop 1 modifies newStmt.Clauses[*]
+//@   loop 1 invariant copied-so-far: forallkey(k, stmt.Clauses, visited(k) ==> has(newStmt.Clauses, k) && newStmt.Clauses[k] == stmt.Clauses[k]) [C06,C09,C16,C08]
+//@   loop 2 modifies newStmt.Preloads[*]
+//@   loop 2 invariant clauses-all-copied: forallkey(k, stmt.Clauses, has(stmt.Clauses, k) ==> has(newStmt.Clauses, k) && newStmt.Clauses[k] == stmt.Clauses[k])
+//@   loop "callback (*sync.Map).Range" modifies newStmt.Settings
+//@   loop "callback (*sync.Map).Range" invariant clauses-all-copied: forallkey(k, stmt.Clauses, has(stmt.Clauses, k) ==> has(newStmt.Clauses, k) && newStmt.Clauses[k] == stmt.Clauses[k])
+//@   ensures fresh-stmt: fresh(result) && fresh(result.Clauses) && fresh(result.Preloads)
+//@   ensures chain-state: result.Table == stmt.Table && result.TableExpr == stmt.TableExpr && result.Model == stmt.Model && result.Unscoped == stmt.Unscoped && result.Dest == stmt.Dest && result.Distinct == stmt.Distinct && result.Selects == stmt.Selects && result.Omits == stmt.Omits && result.ColumnMapping == stmt.ColumnMapping && result.Schema == stmt.Schema && result.RaiseErrorOnNotFound == stmt.RaiseErrorOnNotFound && result.SkipHooks == stmt.SkipHooks [C16,C06]
+//@   ensures context: result.Context == stmt.Context [C18]
+//@   ensures connpool: result.ConnPool == stmt.ConnPool [C05,C04]
+//@   ensures every-clause-copied: forallkey(k, stmt.Clauses, has(stmt.Clauses, k) ==> has(result.Clauses, k) && result.Clauses[k] == stmt.Clauses[k]) [C06,C09,C16,C08]
+//@   ensures attrs: result.attrs == stmt.attrs [C16]
+//@   ensures assigns: result.assigns == stmt.assigns [C16]
+//@   ensures joins: len(result.Joins) == len(stmt.Joins) && (result.Joins == nil || fresh(result.Joins))
+//@   ensures scopes: len(result.scopes) == len(stmt.scopes) && (result.scopes == nil || fresh(result.scopes))
+
+//@ func (*DB).getInstance
+//@   tags C06
+//@   modifies nothing
+//@   ensures reuse: db.clone <= 0 ==> result == db
+//@   ensures fresh-handle: db.clone > 0 ==> fresh(result) && fresh(result.Statement) && fresh(result.Statement.Clauses) && result.Statement.DB == result && result.clone == 0
+//@   ensures fresh-slices: db.clone > 0 ==> (result.Statement.Joins == nil || fresh(result.Statement.Joins)) && (result.Statement.scopes == nil || fresh(result.Statement.scopes)) && (result.Statement.Preloads == nil || fresh(result.Statement.Preloads))
+//@   ensures connpool: result.Statement.ConnPool == db.Statement.ConnPool [C05,C04]
+//@   ensures context: result.Statement.Context == db.Statement.Context [C18]
+//@   ensures config: result.Config == db.Config && result.Error == db.Error [C19,C05]
+//@   ensures skiphooks: result.Statement.SkipHooks == db.Statement.SkipHooks [C13]
+
+//@ func NewPreparedStmtDB
+//@   tags C06
+//@   modifies nothing
+//@   ensures fresh(result)
+
+//@ func (*DB).Session
+//@   tags C06
+//@   modifies *db.cacheStore [C06,C18]
+//@   ensures fresh-handle: fresh(result) && fresh(result.Config) && (!config.Initialized ==> result.clone >= 1)
+//@   ensures context-kept: config.Context == nil ==> result.Statement.Context == db.Statement.Context [C18]
+//@   ensures context-set: config.Context != nil ==> result.Statement.Context == config.Context [C18]
+//@   ensures dryrun: result.Config.DryRun == (db.Config.DryRun || config.DryRun) [C19]
+//@   ensures skip-default-tx: result.Config.SkipDefaultTransaction == (db.Config.SkipDefaultTransaction || config.SkipDefaultTransaction) [C19]
+//@   ensures connpool: !config.PrepareStmt ==> result.Statement.ConnPool == db.Statement.ConnPool [C05,C04]
+//@   ensures tx-stays-tx: config.PrepareStmt && is(db.Statement.ConnPool, Tx) ==> is(result.Statement.ConnPool, *PreparedStmtTX) && result.Statement.ConnPool.(*PreparedStmtTX).Tx == db.Statement.ConnPool [C04,C05]
+//@   ensures error-kept: result.Error == db.Error [C05]
+//@   ensures skiphooks: result.Statement.SkipHooks == (db.Statement.SkipHooks || config.SkipHooks) [C13]
+
+//@ # ---------- chain methods write only memory allocated by the call (C06) ----------
+//@ iface ErrorTranslator.Translate(recv, err)
+//@   abstract dialect plug-in; assumed to return an error for an error
+//@   pure
+//@   ensures err != nil ==> result != nil
+
+//@ func (*DB).AddError
+//@   tags C05
+//@   modifies db.Error
+//@   ensures keeps-error: old(db.Error) != nil ==> db.Error != nil
+//@   ensures records-error: err != nil ==> db.Error != nil
+//@   ensures nil-is-noop: err == nil ==> db.Error == old(db.Error)
+//@   ensures returns-current: result == db.Error
+
+//@ iface StatementModifier.ModifyStatement(recv, stmt)
+//@   abstract statement modifiers (soft delete clauses, plug-ins) are assumed to write only the statement they are given
+//@   modifies stmt.Clauses[*], stmt.SQL, stmt.Vars, stmt.Dest, stmt.DB.Error
+
+//@ func (*Statement).AddClause
+//@   tags C06
+//@   modifies stmt.Clauses[*], stmt.SQL, stmt.Vars, stmt.Dest, stmt.DB.Error
+
+//@ func (*Statement).BuildCondition
+//@   trusted reflection-driven conversion of condition forms; frame assumed (see finding F7 for the *DB argument case)
+//@   modifies stmt.DB.Error
+//@   ensures len(result) == 0 || fresh(result)
+
+//@ func (*Statement).Quote
+//@   trusted quotes through the dialect into a local strings.Builder
+//@   pure
+
+//@ func (*DB).Clauses
+//@   tags C06
+//@   requires db.clone > 0
+//@   modifies nothing
+//@   loop 1 invariant whereConds == nil || fresh(whereConds)
+//@   ensures fresh-result: fresh(result)
+//@   ensures parent-handle-untouched: objUnchanged(db) [C06,C13,C18,C05]
+//@   ensures parent-statement-untouched: objUnchanged(db.Statement) [C06,C13,C18,C05]
+//@   ensures keeps-skiphooks: result.Statement.SkipHooks == db.Statement.SkipHooks [C13]
+//@   ensures keeps-context: result.Statement.Context == db.Statement.Context [C18]
+//@   ensures keeps-connpool: result.Statement.ConnPool == db.Statement.ConnPool [C05]
+//@   ensures keeps-config: result.Config == db.Config [C19]
+
+//@ func (*DB).Select
+//@   tags C06
+//@   inline
+//@   requires db.clone > 0
+//@   modifies nothing
+//@   loop 1 invariant selects-own-1: tx.Statement.Selects == nil || fresh(tx.Statement.Selects)
+//@   loop 2 invariant selects-own-2: tx.Statement.Selects == nil || fresh(tx.Statement.Selects)
+//@   ensures fresh-result: fresh(result)
+//@   ensures parent-handle-untouched: objUnchanged(db) [C06,C13,C18,C05]
+//@   ensures parent-statement-untouched: objUnchanged(db.Statement) [C06,C13,C18,C05]
+//@   ensures keeps-skiphooks: result.Statement.SkipHooks == db.Statement.SkipHooks [C13]
+//@   ensures keeps-context: result.Statement.Context == db.Statement.Context [C18]
+//@   ensures keeps-connpool: result.Statement.ConnPool == db.Statement.ConnPool [C05]
+//@   ensures keeps-config: result.Config == db.Config [C19]
+
+//@ func (*DB).Distinct
+//@   tags C06
+//@   requires db.clone > 0
+//@   modifies nothing
+//@   ensures fresh-result: fresh(result)
+
+//@ func (*DB).Model (*DB).Table (*DB).Omit (*DB).MapColumns (*DB).Where (*DB).Not (*DB).Or (*DB).Joins (*DB).InnerJoins (*DB).Group (*DB).Having (*DB).Order (*DB).Limit (*DB).Offset (*DB).Scopes (*DB).Preload (*DB).Attrs (*DB).Assign (*DB).Unscoped
+//@   tags C06
+//@   requires db.clone > 0
+//@   modifies nothing
+//@   ensures fresh-result: fresh(result)
+//@   ensures parent-handle-untouched: objUnchanged(db) [C06,C13,C18,C05]
+//@   ensures parent-statement-untouched: objUnchanged(db.Statement) [C06,C13,C18,C05]
+//@   ensures keeps-skiphooks: result.Statement.SkipHooks == db.Statement.SkipHooks [C13]
+//@   ensures keeps-context: result.Statement.Context == db.Statement.Context [C18]
+//@   ensures keeps-connpool: result.Statement.ConnPool == db.Statement.ConnPool [C05]
+//@   ensures keeps-config: result.Config == db.Config [C19]
+
+//@ func joins
+//@   tags C06
+//@   requires db.clone > 0
+//@   modifies nothing
+//@   ensures fresh-result: fresh(result)
+//@   ensures parent-handle-untouched: objUnchanged(db) [C06,C13,C18,C05]
+//@   ensures parent-statement-untouched: objUnchanged(db.Statement) [C06,C13,C18,C05]
+//@   ensures keeps-skiphooks: result.Statement.SkipHooks == db.Statement.SkipHooks [C13]
+//@   ensures keeps-context: result.Statement.Context == db.Statement.Context [C18]
+//@   ensures keeps-connpool: result.Statement.ConnPool == db.Statement.ConnPool [C05]
+//@   ensures keeps-config: result.Config == db.Config [C19]
+
+//@ # ---------- package-level error values (assumed never reassigned, non-nil) ----------
+//@ constant ErrRecordNotFound ErrInvalidTransaction ErrMissingWhereClause ErrInvalidDB ErrInvalidValue ErrUnsupportedDriver ErrInvalidData ErrDryRunModeUnsupported ErrEmptySlice
+//@ global ErrMissingWhereClause != nil && ErrInvalidTransaction != nil && ErrRecordNotFound != nil && ErrInvalidDB != nil && ErrInvalidValue != nil && ErrUnsupportedDriver != nil
+
+//@ func (*DB).Get (*DB).InstanceGet
+//@   trusted reads the settings map
+//@   pure
+
+//@ # ---------- C18: the caller's context reaches every driver call made outside callbacks ----------
+//@ site begin-tx-context
+//@   match invoke TxBeginner.BeginTx | invoke ConnPoolBeginner.BeginTx
+//@   in gorm.(*DB).Begin
+//@   min-sites 1
+//@   assert caller-context: arg0 == db.Statement.Context [C18]
+//@ site connection-context
+//@   match call database/sql.(*DB).Conn
+//@   in gorm.(*DB).Connection
+//@   min-sites 1
+//@   assert caller-context: arg1 == db.Statement.Context [C18]
+//@ site prepared-stmt-context
+//@   match invoke ConnPool.PrepareContext | invoke Tx.StmtContext | invoke TxBeginner.BeginTx | invoke ConnPoolBeginner.BeginTx
+//@   in gorm.(*PreparedStmtDB).* gorm.(*PreparedStmtTX).*
+//@   min-sites 5
+//@   assert context-passed-on: arg0 == ctx [C18]
+//@ site prepared-stmt-exec-context
+//@   match call database/sql.(*Stmt).ExecContext | call database/sql.(*Stmt).QueryContext | call database/sql.(*Stmt).QueryRowContext | call gorm.(*PreparedStmtDB).prepare
+//@   in gorm.(*PreparedStmtDB).* gorm.(*PreparedStmtTX).*
+//@   min-sites 6
+//@   assert context-passed-on: arg1 == ctx [C18]
+
+//@ # ---------- C04/C05: Commit and Rollback delegate once and record the driver's error ----------
+//@ ghost drvCommits drvRollbacks drvCommitErr drvRollbackErr
+//@ event invoke TxCommitter.Commit
+//@   do drvCommits = drvCommits + 1
+//@   do drvCommitErr = tagof(result)
+//@ event invoke TxCommitter.Rollback
+//@   do drvRollbacks = drvRollbacks + 1
+//@   do drvRollbackErr = tagof(result)
+
+//@ iface TxCommitter.Commit(recv)
+//@   abstract driver transaction (database/sql.Tx or a plug-in); its effects are outside gorm's memory
+//@   pure
+//@ iface TxCommitter.Rollback(recv)
+//@   abstract driver transaction (database/sql.Tx or a plug-in); its effects are outside gorm's memory
+//@   pure
+
+//@ func (*DB).DB
+//@   trusted looks up the *sql.DB behind the connection pool
+//@   pure
+
+//@ func (*DB).Commit
+//@   tags C04 C05
+//@   modifies db.Error, ghost drvCommits, ghost drvCommitErr
+//@   ensures at-most-once: drvCommits <= old(drvCommits) + 1 && drvRollbacks == old(drvRollbacks)
+//@   ensures error-recorded: drvCommits == old(drvCommits) + 1 && drvCommitErr != 0 ==> db.Error != nil
+//@   ensures not-a-transaction: drvCommits == old(drvCommits) ==> db.Error != nil
+//@   ensures error-kept: old(db.Error) != nil ==> db.Error != nil
+//@   ensures same-handle: result == db
+
+//@ func (*DB).Rollback
+//@   tags C04 C05
+//@   modifies db.Error, ghost drvRollbacks, ghost drvRollbackErr
+//@   ensures at-most-once: drvRollbacks <= old(drvRollbacks) + 1 && drvCommits == old(drvCommits)
+//@   ensures error-recorded: drvRollbacks == old(drvRollbacks) + 1 && drvRollbackErr != 0 ==> db.Error != nil
+//@   ensures error-kept: old(db.Error) != nil ==> db.Error != nil
+//@   ensures same-handle: result == db
+
+//@ # ---------- C14: lock discipline of the prepared-statement cache (premises of the monitor argument) ----------
+//@ ghost held inserted closes prepares spawned prepErr evicted ranged waited usable
+//@ event call (*RWMutex).RLock
+//@   in gorm.(*PreparedStmtDB).* gorm.(*PreparedStmtTX).*
+//@   requires lock-taken-while-free: held == 0 [C14]
+//@   do held = 1
+//@   interference
+//@ event call (*RWMutex).RUnlock
+//@   in gorm.(*PreparedStmtDB).* gorm.(*PreparedStmtTX).*
+//@   requires runlock-while-read-held: held == 1 [C14]
+//@   do held = 0
+//@ event call (*RWMutex).Lock
+//@   in gorm.(*PreparedStmtDB).* gorm.(*PreparedStmtTX).*
+//@   requires lock-taken-while-free: held == 0 [C14]
+//@   do held = 2
+//@   interference
+//@ event call (*RWMutex).Unlock
+//@   in gorm.(*PreparedStmtDB).* gorm.(*PreparedStmtTX).*
+//@   requires unlock-while-write-held: held == 2 [C14]
+//@   do held = 0
+//@ event mapread PreparedStmtDB.Stmts
+//@   requires cache-read-under-lock: held >= 1 [C14]
+//@ event mapwrite PreparedStmtDB.Stmts
+//@   requires cache-write-under-write-lock: held == 2 [C14]
+//@   do inserted = inserted + 1
+//@ event mapdelete PreparedStmtDB.Stmts
+//@   requires cache-delete-under-write-lock: held == 2 [C14]
+//@   do evicted = evicted + 1
+//@ event recv
+//@   in gorm.(*PreparedStmtDB).* gorm.(*PreparedStmtTX).*
+//@   requires no-wait-while-locked: held == 0 [C14]
+//@   do waited = 1
+//@   interference
+//@ event invoke ConnPool.PrepareContext
+//@   in gorm.(*PreparedStmtDB).* gorm.(*PreparedStmtTX).*
+//@   requires no-prepare-while-locked: held == 0 [C14]
+//@   do prepares = prepares + 1
+//@   do prepErr = tagof(result1)
+//@ event call database/sql.(*Stmt).ExecContext
+//@   in gorm.(*PreparedStmtDB).* gorm.(*PreparedStmtTX).*
+//@   requires no-exec-while-locked: held == 0 [C14]
+//@ event call database/sql.(*Stmt).QueryContext
+//@   in gorm.(*PreparedStmtDB).* gorm.(*PreparedStmtTX).*
+//@   requires no-query-while-locked: held == 0 [C14]
+//@ event call database/sql.(*Stmt).Close
+//@   in gorm.(*PreparedStmtDB).* gorm.(*PreparedStmtTX).*
+//@   requires no-close-while-locked: held == 0 [C14]
+//@ event mapnext PreparedStmtDB.Stmts
+//@   do ranged = ranged + arg0
+//@ event maplookup PreparedStmtDB.Stmts
+//@   do usable = ite(arg1 && (!arg0.Transaction || isTransaction), 1, 0)
+//@ event close
+//@   in gorm.(*PreparedStmtDB).* gorm.(*PreparedStmtTX).*
+//@   do closes = closes + 1
+//@ event go
+//@   in gorm.(*PreparedStmtDB).* gorm.(*PreparedStmtTX).*
+//@   do spawned = spawned + 1
+
+//@ func (*PreparedStmtDB).prepare
+//@   tags C14
+//@   requires held == 0
+//@   ensures mutex-free-on-return: held == 0
+//@   ensures no-insert-no-close: inserted == old(inserted) ==> closes == old(closes)
+//@   ensures inserter-closes-once: inserted == old(inserted) + 1 ==> closes == old(closes) + 1
+//@   ensures at-most-one-insert: inserted <= old(inserted) + 1
+//@   ensures at-most-one-prepare: prepares <= old(prepares) + 1
+//@   ensures hit-paths-do-not-prepare: inserted == old(inserted) ==> prepares == old(prepares)
+//@   ensures failed-preparation-reported-and-evicted: prepares == old(prepares) + 1 && prepErr != 0 ==> result1 != nil && evicted == old(evicted) + 1
+//@   ensures successful-preparation-stays-cached: prepares == old(prepares) + 1 && prepErr == 0 ==> result1 == nil && evicted == old(evicted)
+//@   ensures hit-paths-do-not-evict: prepares == old(prepares) ==> evicted == old(evicted)
+//@   ensures usable-entry-is-reused: usable == 1 ==> prepares == old(prepares) && inserted == old(inserted)
+
+//@ func (*PreparedStmtDB).ExecContext (*PreparedStmtDB).QueryContext (*PreparedStmtTX).ExecContext (*PreparedStmtTX).QueryContext
+//@   tags C14
+//@   requires held == 0
+//@   ensures mutex-free-on-return: held == 0
+
+//@ func (*PreparedStmtDB).Reset (*PreparedStmtDB).Close
+//@   tags C14
+//@   requires held == 0
+//@   loop 1 invariant every-entry-gets-a-closer: spawned - old(spawned) == ranged - old(ranged) && held == 2
+//@   ensures mutex-free-on-return: held == 0
+//@   ensures every-entry-gets-a-closer: spawned - old(spawned) == ranged - old(ranged)
+
+//@ site closer-waits-for-preparation
+//@   match call database/sql.(*Stmt).Close
+//@   in gorm.(*PreparedStmtDB).Reset$1 gorm.(*PreparedStmtDB).Close$1
+//@   min-sites 2
+//@   entry waited == 0
+//@   assert waited-for-preparation: waited == 1 [C14]
+
+//@ func (*PreparedStmtDB).Reset$1 (*PreparedStmtDB).Close$1
+//@   tags C14
+//@   requires held == 0
+//@   ensures mutex-free-on-return: held == 0
+
+//@ # ---------- C17: callback ordering helpers (K1) ----------
+//@ func getRIndex
+//@   tags C17 safety
+//@   modifies nothing
+//@   loop 1 invariant bounds: -1 <= i && i < len(strs)
+//@   loop 1 invariant none-to-the-right: forall(k, i + 1, len(strs), strs[k] != str)
+//@   ensures in-range: result >= -1 && result < len(strs)
+//@   ensures found-is-match: result >= 0 ==> strs[result] == str
+//@   ensures is-last-match: forall(k, result + 1, len(strs), strs[k] != str)
+//@   ensures minus-one-means-absent: result == -1 ==> forall(k, 0, len(strs), strs[k] != str)
+
+//@ # ---------- C13/C16: Save's upsert fallback runs no hooks a second time ----------
+//@ site save-fallback-skips-hooks
+//@   match call gorm.(*DB).Create
+//@   in gorm.(*DB).Save
+//@   min-sites 1
+//@   assert hooks-skipped: arg0.Statement.SkipHooks [C13]
+
+//@ # ---------- C08: the soft-delete filter ----------
+//@ spec singleOr(e) = is(e, clause.OrConditions) && len(e.(clause.OrConditions).Exprs) == 1
+//@ spec whereExprs(stmt) = stmt.Clauses["WHERE"].Expression.(clause.Where).Exprs
+
+//@ func (SoftDeleteQueryClause).ModifyStatement
+//@   tags C08
+//@   inline-call (*Statement).AddClause
+//@   assumes where-is-where: has(stmt.Clauses, "WHERE") ==> is(stmt.Clauses["WHERE"].Expression, clause.Where)
+//@   let hadWhere = has(stmt.Clauses, "WHERE")
+//@   let w = whereExprs(stmt)
+//@   let active = !has(stmt.Clauses, "soft_delete_enabled") && !stmt.DB.Statement.Unscoped
+//@   let regroup = hadWhere && exists(k, 0, len(w), singleOr(w[k]))
+//@   loop 1 invariant no-or-unit-so-far: forall(k, 0, iter, !singleOr(w[k]))
+//@   loop 1 invariant nothing-written-yet: objUnchanged(stmt.Clauses)
+//@   ensures unscoped-or-done-is-noop: !active ==> objUnchanged(stmt.Clauses)
+//@   ensures marker-set: active ==> has(stmt.Clauses, "soft_delete_enabled")
+//@   ensures where-present: active ==> has(stmt.Clauses, "WHERE") && is(stmt.Clauses["WHERE"].Expression, clause.Where)
+//@   ensures filter-appended-to-user-conditions: active && hadWhere && !regroup ==> len(whereExprs(stmt)) == len(w) + 1
+//@   ensures or-units-grouped-before-filter: active && regroup ==> len(whereExprs(stmt)) == 2 && is(whereExprs(stmt)[0], clause.AndConditions) && whereExprs(stmt)[0].(clause.AndConditions).Exprs == w
+//@   ensures filter-alone-without-conditions: active && !hadWhere ==> len(whereExprs(stmt)) == 1
+//@   ensures filter-is-last-and-top-level: active ==> is(whereExprs(stmt)[len(whereExprs(stmt)) - 1], clause.Eq) && whereExprs(stmt)[len(whereExprs(stmt)) - 1].(clause.Eq).Column == clause.Column{Table: clause.CurrentTable, Name: sd.Field.DBName} && whereExprs(stmt)[len(whereExprs(stmt)) - 1].(clause.Eq).Value == sd.ZeroValue
+
+//@ ghost filterApplied
+//@ event call (SoftDeleteQueryClause).ModifyStatement
+//@   do filterApplied = 1
+//@ site soft-delete-update-delegates-to-filter
+//@   match call gorm.(SoftDeleteQueryClause).ModifyStatement
+//@   in gorm.(SoftDeleteUpdateClause).ModifyStatement gorm.(SoftDeleteDeleteClause).ModifyStatement
+//@   min-sites 2
+//@   assert same-field-and-zero-value: arg0.Field == sd.Field && arg0.ZeroValue == sd.ZeroValue [C08]
+//@   assert same-statement: arg1 == stmt [C08]
+//@ site soft-delete-rewrite-is-filtered
+//@   match call gorm.(*Statement).Build
+//@   in gorm.(SoftDeleteDeleteClause).ModifyStatement
+//@   min-sites 1
+//@   entry filterApplied == 0
+//@   assert filter-before-build: filterApplied == 1 [C08]
+
+//@ # ---------- C03/C05: CreateInBatches covers the slice exactly once, in order, on the block's connection ----------
+//@ ghost covered
+//@ event call reflect.(Value).Slice
+//@   in gorm.(*DB).CreateInBatches$1
+//@   requires batch-starts-where-previous-ended: arg1 == covered [C03]
+//@   requires batch-is-non-empty-and-in-range: 0 <= arg1 && arg1 < arg2 && arg2 <= reflectLen [C03]
+//@   requires batch-no-larger-than-requested: arg2 - arg1 <= batchSize [C03]
+//@   requires batch-is-full-unless-last: arg2 == reflectLen || arg2 - arg1 == batchSize [C03]
+//@   do covered = arg2
+
+//@ func (*DB).CreateInBatches$1
+//@   tags C03 C05
+//@   assumes batchSize > 0 && covered == 0 && reflectLen >= 0
+//@   loop 1 invariant progress: i >= 0 && covered == min(i, reflectLen)
+//@   ensures every-row-in-some-batch: result == nil ==> covered == reflectLen
+
+//@ site batch-runs-on-the-block-connection
+//@   match call gorm.(*processor).Execute
+//@   in gorm.(*DB).CreateInBatches$1
+//@   min-sites 1
+//@   assert same-connection-as-block: arg1.Statement.ConnPool == tx.Statement.ConnPool [C05,C03]
+//@ site batches-share-one-transaction
+//@   match call gorm.(*DB).Session
+//@   in gorm.(*DB).CreateInBatches
+//@   min-sites 1
+//@   assert single-batch-or-no-default-transaction: tx.Config.SkipDefaultTransaction || reflectLen <= batchSize [C05]
+
+//@ # ---------- C01: every bound value is appended first and gets its placeholder right after ----------
+//@ ghost PH
+//@ event invoke Dialector.BindVarTo
+//@   requires value-was-just-appended: len(arg2.Vars) >= 1 && arg2.Vars[len(arg2.Vars) - 1] == arg3 [C01]
+//@   do PH = PH + 1
+//@ site placeholder-goes-to-the-callers-writer
+//@   match invoke Dialector.BindVarTo
+//@   in gorm.(*Statement).AddVar
+//@   min-sites 5
+//@   assert same-writer-for-own-statement: arg1 == stmt ==> arg0 == writer [C01]
+//@ site subquery-continues-parent-numbering
+//@   match call gorm.(*processor).Execute
+//@   in gorm.(*Statement).AddVar
+//@   min-sites 1
+//@   assert starts-from-parents-values: len(arg1.Statement.Vars) >= len(stmt.Vars) && forall(k, 0, len(stmt.Vars), arg1.Statement.Vars[k] == stmt.Vars[k]) [C01]
+
+//@ # ---------- C10: permission-denied fields are never selected for a write ----------
+//@ spec colName(f) = ite(f.DBName == "", f.Name, f.DBName)
+//@ spec denied(f, rc, ru) = (rc && !f.Creatable) || (ru && !f.Updatable)
+//@ func (*Statement).SelectAndOmitColumns
+//@   tags C10-undischarged
+//@   loop 3 invariant results-is-own-map: fresh(results) && stmt.Schema != nil
+//@   loop 3 invariant denied-named-fields-excluded-so-far: forallkey(k, stmt.Schema.FieldsByName, visited(k) && denied(stmt.Schema.FieldsByName[k], requireCreate, requireUpdate) && stmt.Schema.FieldsByName[k].DBName != "" ==> has(results, stmt.Schema.FieldsByName[k].DBName) && !results[stmt.Schema.FieldsByName[k].DBName])
+//@   loop 3 invariant denied-unnamed-fields-excluded-so-far: forallkey(k, stmt.Schema.FieldsByName, visited(k) && denied(stmt.Schema.FieldsByName[k], requireCreate, requireUpdate) && stmt.Schema.FieldsByName[k].DBName == "" ==> has(results, stmt.Schema.FieldsByName[k].Name) && !results[stmt.Schema.FieldsByName[k].Name])
+//@   ensures denied-fields-excluded: stmt.Schema != nil ==> forallkey(k, stmt.Schema.FieldsByName, has(stmt.Schema.FieldsByName, k) ==> denied(stmt.Schema.FieldsByName[k], requireCreate, requireUpdate) ==> has(result0, colName(stmt.Schema.FieldsByName[k])) && !result0[colName(stmt.Schema.FieldsByName[k])])
+
+//@ # C10 note: the permission lemma on SelectAndOmitColumns above is written and its entry/exit steps
+//@ # discharge, but the preservation step on the two writing paths times out on all three solvers; it is
+//@ # therefore tagged C10-undischarged and NOT part of the C10 claim (DESIGN.md 4/C10).
+
+//@ site column-updates-run-no-hooks
+//@   match call gorm.(*processor).Execute
+//@   in gorm.(*DB).UpdateColumn gorm.(*DB).UpdateColumns
+//@   min-sites 2
+//@   assert hooks-skipped: arg1.Statement.SkipHooks [C10,C13]
